@@ -156,7 +156,7 @@ def run_property(pid, spec, tier, seed, scratch, logdir, a, t0):
         td, lk = pool.acquire()
         try:
             to = h.get("timeout", 900) * (3 if tier == "thorough" else 1)
-            return kani.run(scratch, h["name"], td, to, h.get("mem_gb", 20), h.get("extra", ()), logdir, full=h.get("full"))
+            return kani.run(scratch, h["name"], td, to, h.get("mem_gb", 20), h.get("extra", ()), logdir, full=h.get("full"), package=h.get("package"))
         finally:
             pool.release(lk)
 
@@ -184,6 +184,7 @@ def run_property(pid, spec, tier, seed, scratch, logdir, a, t0):
     for r in results + extra_results:
         h = hmeta.get(r["harness"], {})
         r["full"] = h.get("full")
+        r["package"] = h.get("package")
         if r["outcome"] == "inconclusive":
             inconclusive.append((r["harness"], r.get("why", "")))
             continue
@@ -308,14 +309,14 @@ def replay_failures(pid, scratch, info, r, unlisted, logdir):
         hfile = find_harness_file(os.path.join(rcopy, "verif_harness"), r["harness"])
         # one violation is enough to fail the check: replay at most two distinct failures
         for f in unlisted[:2]:
-            pr = kani.run(scratch, r["harness"], td, 5400, 44, (), logdir, playback=True, full=r.get("full"), only_property=f.get("id"))
+            pr = kani.run(scratch, r["harness"], td, 5400, 44, (), logdir, playback=True, full=r.get("full"), only_property=f.get("id"), package=r.get("package"))
             tests = pr.get("playback_tests", [])
             cands = [t for t in tests if f["desc"] in t["check"] or t["check"] in f["desc"]]
             no_values = pr.get("log") and "could not produce a concrete playback" in open(pr["log"]).read()
             if not cands and not no_values and pr.get("verification") is not None and pr.get("why") is None:
                 # fall back to an unrestricted playback run (only if the restricted one ended
                 # normally: after a timeout / out-of-memory the bigger run cannot do better)
-                pr = kani.run(scratch, r["harness"], td, 5400, 44, (), logdir, playback=True, full=r.get("full"))
+                pr = kani.run(scratch, r["harness"], td, 5400, 44, (), logdir, playback=True, full=r.get("full"), package=r.get("package"))
                 tests = pr.get("playback_tests", [])
                 cands = [t for t in tests if f["desc"] in t["check"] or t["check"] in f["desc"]]
             if not cands and hfile and "could not produce a concrete playback" in open(pr["log"]).read():
@@ -332,7 +333,7 @@ def replay_failures(pid, scratch, info, r, unlisted, logdir):
                 out.append((f, None, None))
                 continue
             t = cands[0]
-            ok, log = kani.native_replay(rcopy, hfile, t, os.path.join(CACHE, "td-native"))
+            ok, log = kani.native_replay(rcopy, hfile, t, os.path.join(CACHE, "td-native"), package=r.get("package"))
             if ok and t.get("must_mention") and t["must_mention"] not in log:
                 ok = None  # failed for another reason (e.g. ran out of concrete values)
             rid = kani.replay_id(r["harness"] + f["desc"] + t["code"])
